@@ -204,13 +204,21 @@ fn judge(req: &[u8], tcp: bool, resp: &[u8], twin: Option<&[u8]>, sc: &Scan, t0:
     );
 }
 
+#[path = "c10s.rs"]
+pub mod size;
+
 pub fn oracle(case: &Case, st: &mut Stats) -> Verdict {
+    oracle_with(case, None, st)
+}
+
+/// `pool`: the (name, class) pairs question selectors pick from (default: names derived from the catalog)
+pub fn oracle_with(case: &Case, pool: Option<Vec<(vmodel::name::MName, u16)>>, st: &mut Stats) -> Verdict {
     let (cat, model) = build(&case.catalog);
     let mut cfg = case.cfg.clone();
     cfg.rrl = None;
     let server = make_server(&cat, &cfg);
     let payload = server.payload();
-    let pool = query_names(&model, &[], 400);
+    let pool = pool.unwrap_or_else(|| query_names(&model, &[], 400));
     let keys = keys_for_scan(&cfg);
     let mut buf = Vec::new();
     for r in &case.requests {
@@ -291,8 +299,12 @@ pub fn run(ctx: &Ctx, report: &mut Report) {
         .into();
     report.assumptions.push("wall clock: the server's time reading lies between the harness's readings before and after the call".into());
     run_prop(ctx, report, PropSpec { name: "tsig-server", cases: ctx.tier.pick(48_000, 600_000), max_shrink_iters: 3000 }, case_strategy, oracle);
+    run_prop(ctx, report, PropSpec { name: "tsig-size-limit", cases: ctx.tier.pick(40_000, 600_000), max_shrink_iters: 2000 }, size::case_strategy, size::oracle);
 }
 
-pub fn replay(_check: &str, case: &serde_json::Value) -> Verdict {
+pub fn replay(check: &str, case: &serde_json::Value) -> Verdict {
+    if check == "tsig-size-limit" {
+        return crate::fw::replay_case::<size::SizeCase, _>(case, size::oracle);
+    }
     crate::fw::replay_case::<Case, _>(case, oracle)
 }
